@@ -13,7 +13,7 @@ TIMEOUT = {"quick": 900, "thorough": 2400}
 MIN_EVALUATIONS = {"quick": 8000, "thorough": 8000}  # fewer oracle evaluations than this means the workload collapsed: inconclusive
 RULE = ("generic_message over: service 0..0x7F (int and bytes), class/instance/attribute as int or 1/2/4-byte bytes over 8/16/32-bit "
         "values, request data of every length 0..64 and random to 400, transports {connected, direct UCMM, Unconnected Send}, route_path "
-        "in {True, False, string, segment list, pre-encoded bytes}, driver paths spelled from the path grammar over 0-3 hop chassis, any "
+        "in {True, False, string, segment list, pre-encoded bytes}, arguments by keyword or the first 3..10 of them positionally in the documented order, driver paths spelled from the path grammar over 0-3 hop chassis, any "
         "reply data / status chosen by the target; helpers get_module_info(slot), get_plc_name, get_plc_info, get/set_plc_time "
         "(0..year 9999 in microseconds); get_module_info on an empty slot; typed replies too short for the data type; re-open after a close() "
         "whose Forward Close the target refused (connection timed out on the PLC); Unconnected Send refused by the router itself (reply service 0xD2: falsy Tag "
